@@ -22,7 +22,6 @@ from gverif.props.c01_render import PRELUDE_NAMES, expected_doc, render
 
 DECO_U = {"async", "property", "cached", "staticmethod", "classmethod", "abstractmethod", "writable", "deletable", "dataclass"}
 NO_ALL = ["<no __all__>"]
-GUARD_HZ = {"guard-reset", "guard-else", "guard-nested"}
 
 _griffe = None
 
@@ -173,6 +172,14 @@ def _load(src: str, mode: str, rec):
         return mod
 
 
+def visit_only(prog: list, variant: int, mode: str) -> None:
+    """Visit a program without judging it (re-creates the process history of a stored case)."""
+    try:
+        _load(render(prog, variant, mode).source, mode, make_recorder())
+    except Exception:  # noqa: BLE001, S110
+        pass
+
+
 def replay_case(case: dict, variant: int, mode: str) -> dict:
     out = {"violations": [], "drift": [], "machinery": None, "nontrivial": False, "summary": None}
     prog = case["prog"]
@@ -232,8 +239,7 @@ def replay_case(case: dict, variant: int, mode: str) -> dict:
     try:
         mod = _load(src, mode, rec)
     except Exception as exc:  # noqa: BLE001
-        cause = "init-overload" if "init-overload" in hz and isinstance(exc, TypeError) else "none"
-        viol("total", cause, f"static loading raised {type(exc).__name__}: {exc}", exc=type(exc).__name__)
+        viol("total", "none", f"static loading raised {type(exc).__name__}: {exc}", exc=type(exc).__name__)
         if case["outcome"] == "ok":
             out["drift"].append(f"model says the visit completes, real code raised {type(exc).__name__}")
         return out
@@ -279,9 +285,7 @@ def replay_case(case: dict, variant: int, mode: str) -> dict:
             if m is None or m["l"] != rm["l"]:
                 continue
             if m["rt"] != rm["rt"]:
-                want = {"guard-reset", "guard-nested"} if m["rt"] else {"guard-else"}
-                cause = "+".join(sorted(hz & want)) or "none"
-                viol("runtime", cause, f"{key[1]!r} (abstract line {m['l']}, source line {info[m['l']]['defline']}) has runtime={m['rt']}, lexically type-guarded={not rm['rt']}", direction="unguarded" if m["rt"] else "overguarded")
+                viol("runtime", "none", f"{key[1]!r} (abstract line {m['l']}, source line {info[m['l']]['defline']}) has runtime={m['rt']}, lexically type-guarded={not rm['rt']}", direction="unguarded" if m["rt"] else "overguarded")
             dl = sorted(set(m["lab"]) & DECO_U)
             if dl != sorted(rm["dl"]):
                 cause = "label-inherit" if "label-inherit" in hz and set(dl) >= set(rm["dl"]) and m["k"] == "attribute" else "none"
